@@ -5,7 +5,9 @@
 // script chooses which one. Two logical threads: P (a frontend thread that logs and exits) and B (the backend's reads and
 // its clean-up predicate `!ctx->is_valid() && queue.empty()`), interleaved at the granularity of those functions.
 //   h_exit <script> <trace-out>
-// script: init cap=N | P write | P exit | B read <iw> | B check <iv> <iw> | end      (indexes 1-based, 0 = latest)
+// script: init cap=N [unbounded] | P write | P grow | P exit | B read <iw> | B check <iv> <iw> [<in>] | end   (1-based, 0 = latest)
+// "unbounded": the context owns an UnboundedSPSCQueue; `P grow` logs a statement that does not fit (a second buffer is linked
+// through `next`); the backend's reads stay on the first buffer (it has not switched yet), its check is the real empty().
 #include <algorithm>
 #include <cstdint>
 #include <cstdio>
@@ -34,6 +36,8 @@ int main(int argc, char** argv)
   std::ifstream in(argv[1]);
   shim::g_out.open(argv[2]);
   std::unique_ptr<ThreadContext> tc;
+  quill::detail::UnboundedSPSCQueue::Node* node1 = nullptr;
+  bool unbounded = false;
   long committed = 0, consumed = 0;
   constexpr size_t REC = 8;
   std::string line;
@@ -46,31 +50,54 @@ int main(int argc, char** argv)
     {
       std::string kv;
       size_t cap = 64;
-      while (ss >> kv) if (kv.rfind("cap=", 0) == 0) cap = std::stoul(kv.substr(4));
+      unbounded = false;
+      while (ss >> kv)
+      {
+        if (kv.rfind("cap=", 0) == 0) cap = std::stoul(kv.substr(4));
+        else if (kv == "unbounded") unbounded = true;
+      }
       shim::g_thr = -1;
       shim::g_names.clear();
       shim::g_clk[0] = shim::g_clk[1] = shim::Clock{};
       shim::g_choices.clear();
       committed = consumed = 0;
-      tc = std::make_unique<ThreadContext>(quill::QueueType::BoundedBlocking, cap, cap, quill::HugePagesPolicy::Never);
-      auto& q = tc->get_spsc_queue_union().bounded_spsc_queue;
-      shim::g_names[&q._atomic_writer_pos] = "W";
-      shim::g_names[&q._atomic_reader_pos] = "R";
+      tc = std::make_unique<ThreadContext>(unbounded ? quill::QueueType::UnboundedBlocking : quill::QueueType::BoundedBlocking, cap,
+                                           unbounded ? cap * 64 : cap, quill::HugePagesPolicy::Never);
+      if (unbounded)
+      {
+        auto& uq = tc->get_spsc_queue_union().unbounded_spsc_queue;
+        node1 = uq._consumer;
+        shim::g_names[&node1->bounded_queue._atomic_writer_pos] = "W";
+        shim::g_names[&node1->bounded_queue._atomic_reader_pos] = "R";
+        shim::g_names[&node1->next] = "N";
+      }
+      else
+      {
+        auto& q0 = tc->get_spsc_queue_union().bounded_spsc_queue;
+        shim::g_names[&q0._atomic_writer_pos] = "W";
+        shim::g_names[&q0._atomic_reader_pos] = "R";
+      }
       shim::g_names[&tc->_valid] = "V";
-      shim::g_out << "{\"e\":\"init\",\"cap\":" << q.capacity() << "}\n";
+      shim::g_out << "{\"e\":\"init\",\"cap\":" << cap << ",\"unbounded\":" << (unbounded ? "true" : "false") << "}\n";
     }
     else if (c == "P")
     {
       ss >> op;
       shim::g_thr = 0;
-      auto& q = tc->get_spsc_queue_union().bounded_spsc_queue;
-      if (op == "write")
+      if (op == "write" || op == "grow")
       {
-        std::byte* p = q.prepare_write(REC);
+        // `grow`: larger than the first buffer, so _handle_full_queue links a second one (with room for the small records after it)
+        size_t const n = (op == "grow") ? 64 + REC : REC;
+        std::byte* p = unbounded ? tc->get_spsc_queue_union().unbounded_spsc_queue.prepare_write(n)
+                                 : tc->get_spsc_queue_union().bounded_spsc_queue.prepare_write(n);
         if (!p) { shim::g_out << "{\"e\":\"full\"}\n"; continue; }
-        std::memset(p, 0x5a, REC);
-        q.finish_write(REC);
-        q.commit_write();
+        std::memset(p, 0x5a, n);
+        if (unbounded) tc->get_spsc_queue_union().unbounded_spsc_queue.finish_and_commit_write(n);
+        else
+        {
+          tc->get_spsc_queue_union().bounded_spsc_queue.finish_write(n);
+          tc->get_spsc_queue_union().bounded_spsc_queue.commit_write();
+        }
         ++committed;
         shim::g_out << "{\"e\":\"committed\",\"n\":" << committed << "}\n";
       }
@@ -84,7 +111,8 @@ int main(int argc, char** argv)
     {
       ss >> op;
       shim::g_thr = 1;
-      auto& q = tc->get_spsc_queue_union().bounded_spsc_queue;
+      // the backend's reads: the first buffer (bounded queue, or the unbounded queue's first node before any switch)
+      auto& q = unbounded ? node1->bounded_queue : tc->get_spsc_queue_union().bounded_spsc_queue;
       if (op == "read")
       {
         long iw = 0;
@@ -108,15 +136,16 @@ int main(int argc, char** argv)
       }
       else if (op == "check")
       {
-        long iv = 0, iw = 0;
-        ss >> iv >> iw;
+        long iv = 0, iw = 0, inx = 0;
+        ss >> iv >> iw >> inx;
         shim::g_choices.clear();
         shim::g_choices["V"].push_back(iv);
         shim::g_choices["W"].push_back(iw);
+        shim::g_choices["N"].push_back(inx);
         // the predicate of BackendWorker::_cleanup_invalidated_thread_contexts (the transit buffer is empty here: everything
         // read has been processed)
         bool const valid = tc->is_valid();
-        bool const empty = !valid && q.empty();
+        bool const empty = !valid && (unbounded ? tc->get_spsc_queue_union().unbounded_spsc_queue.empty() : q.empty());
         shim::g_choices.clear();
         shim::g_out << "{\"e\":\"check\",\"valid\":" << (valid ? "true" : "false") << ",\"empty\":" << (empty ? "true" : "false") << "}\n";
         if (!valid && empty)
